@@ -17,6 +17,47 @@ type ScriptedPubSub struct {
 	next      int
 	Messages  []*Msg
 	Published []Published
+	// Always, if set, is returned by every Peers() call (a stable membership).
+	Always []peer.ID
+	// Subscribes counts Subscribe calls; Live feeds subscriptions created with LiveSubs.
+	Subscribes int
+	LiveSubs   bool
+	Subs       []*LiveSub
+}
+
+// LiveSub is a subscription fed by the harness (Push) instead of a script.
+type LiveSub struct {
+	ch chan *Msg
+}
+
+func (s *LiveSub) Close() error { return nil }
+func (s *LiveSub) Next(ctx context.Context) (coreiface.PubSubMessage, error) {
+	select {
+	case m := <-s.ch:
+		return m, nil
+	case <-ctx.Done():
+		return nil, ctx.Err()
+	}
+}
+
+// Push delivers a message to every live subscription (as pubsub does).
+func (p *ScriptedPubSub) Push(m *Msg) {
+	for _, s := range p.Subs {
+		s.ch <- m
+	}
+}
+
+type swarm struct {
+	coreiface.SwarmAPI
+}
+
+func (s *swarm) Connect(ctx context.Context, pi peer.AddrInfo) error { return nil }
+
+func (c *PubSubCoreAPI) Swarm() coreiface.SwarmAPI { return &swarm{} }
+
+type selfKeyAPI struct {
+	coreiface.KeyAPI
+	id peer.ID
 }
 
 type Published struct {
@@ -34,6 +75,9 @@ func (m *Msg) From() peer.ID { return m.Sender }
 func (m *Msg) Data() []byte  { return m.Body }
 
 func (p *ScriptedPubSub) Peers(ctx context.Context, opts ...options.PubSubPeersOption) ([]peer.ID, error) {
+	if p.Always != nil {
+		return p.Always, nil
+	}
 	if p.next >= len(p.Snapshots) {
 		return nil, fmt.Errorf("script exhausted")
 	}
@@ -66,6 +110,13 @@ func (s *scriptedSub) Next(ctx context.Context) (coreiface.PubSubMessage, error)
 }
 
 func (p *ScriptedPubSub) Subscribe(ctx context.Context, topic string, opts ...options.PubSubSubscribeOption) (coreiface.PubSubSubscription, error) {
+	Yield() // a subscribe is a network operation: other goroutines may run meanwhile
+	p.Subscribes++
+	if p.LiveSubs {
+		s := &LiveSub{ch: make(chan *Msg, 16)}
+		p.Subs = append(p.Subs, s)
+		return s, nil
+	}
 	return &scriptedSub{msgs: p.Messages}, nil
 }
 
